@@ -59,3 +59,47 @@ ENTRY(z_sizes) {
   __verif_observe("ext", zonedbx::kZoneRegistrySize);
   __verif_observe("bas", zonedb::kZoneRegistrySize);
 }
+
+// C05 on database zones: zoned date-time from the instant t in [a1,a2) and back; conversion into zone a3 of the
+// other kind of processor keeps the instant.
+static void zdtRoundTrip(const TimeZone& tz, const TimeZone& other, int32_t t) {
+  ZonedDateTime z = ZonedDateTime::forEpochSeconds(t, tz);
+  __verif_observe("zoff", z.timeOffset().toMinutes());
+  __verif_assert(!z.isError(), "zoned not-error");
+  __verif_assert(z.toEpochSeconds() == t, "ZonedDateTime: toEpochSeconds(forEpochSeconds(t,tz))==t");
+  __verif_assert(z.toUnixSeconds() == t + 946684800 || t > 2147483647 - 946684800, "unix difference");
+  __verif_assert(z.timeOffset().toMinutes() == tz.getUtcOffset(t).toMinutes(), "offset used is getUtcOffset(t)");
+  ZonedDateTime w = z.convertToTimeZone(other);
+  __verif_assert(!w.isError() && w.toEpochSeconds() == t, "convertToTimeZone keeps the epoch seconds");
+  __verif_assert(w.compareTo(z) == 0, "converted compares equal by instant");
+}
+
+ENTRY(z_ext_zdt) {
+  ExtendedZoneProcessor proc;
+  ExtendedZoneProcessor proc2;
+  TimeZone tz = TimeZone::forZoneInfo(zonedbx::kZoneRegistry[a0], &proc);
+  TimeZone other = TimeZone::forZoneInfo(zonedbx::kZoneRegistry[a3], &proc2);
+  int32_t t = __verif_nondet_i32("t");
+  __verif_assume(t >= (int32_t) a1 && t < (int32_t) a2);
+  zdtRoundTrip(tz, other, t);
+}
+
+ENTRY(z_bas_zdt) {
+  BasicZoneProcessor bproc;
+  BasicZoneProcessor bproc2;
+  TimeZone tz = TimeZone::forZoneInfo(zonedb::kZoneRegistry[a0], &bproc);
+  TimeZone other = TimeZone::forZoneInfo(zonedb::kZoneRegistry[a3], &bproc2);
+  int32_t t = __verif_nondet_i32("t");
+  __verif_assume(t >= (int32_t) a1 && t < (int32_t) a2);
+  zdtRoundTrip(tz, other, t);
+}
+
+// manager-created zones (cache of 1 slot, two zones competing)
+ENTRY(z_mgr_zdt) {
+  ExtendedZoneManager<1> mgr(zonedbx::kZoneRegistrySize, zonedbx::kZoneRegistry);
+  TimeZone tz = mgr.createForZoneIndex((uint16_t) a0);
+  TimeZone other = mgr.createForZoneIndex((uint16_t) a3);
+  int32_t t = __verif_nondet_i32("t");
+  __verif_assume(t >= (int32_t) a1 && t < (int32_t) a2);
+  zdtRoundTrip(tz, other, t);
+}
